@@ -586,7 +586,7 @@ def main():
       v.mismatch(f, {'message': msg})
     if not ONLY or 'sim' in ONLY.split(','):
       CFG['nvariants'] = 3
-      r = run_config(v, 99, SIM, wd, totals, simulate=f'num={40 if quick else 4000}', depth=18)
+      r = run_config(v, 99, SIM, wd, totals, simulate=f'num={40 if quick else 1500}', depth=18)
   v.coverage.update({
       'states': states, 'transitions': trans,
       'traces_validated_against_impl': totals.get('functions', 0),
